@@ -2,7 +2,7 @@
 (* Emits one family of Shapes.tla as JSON lines: every program text is an initial state. *)
 EXTENDS Shapes, Json
 CONSTANT Family
-Progs(u) == CASE Family = "consts" -> Consts(u) [] Family = "scale" -> Scale(u) [] Family = "errors" -> Errors(u) [] Family = "order" -> Order(u)
+Progs(u) == CASE Family = "consts" -> Consts(u) [] Family = "scale" -> Scale(u) [] Family = "errors" -> Errors(u) [] Family = "order" -> Order(u) [] Family = "names" -> Names(u)
 VARIABLE src
 Init == src \in Progs(0)
 Next == UNCHANGED src
